@@ -374,7 +374,11 @@ func serZiplist12(es []c12ZlEntry) []byte {
 	}
 	b := le12(4, uint64(10+len(body)+1))
 	b = append(b, le12(4, uint64(tail))...)
-	b = append(b, le12(2, uint64(len(es)))...)
+	cnt := len(es)
+	if cnt > 65535 {
+		cnt = 65535 // the count saturates: 65535 = walk the entries (as Redis writes it)
+	}
+	b = append(b, le12(2, uint64(cnt))...)
 	b = append(b, body...)
 	return append(b, 0xFF)
 }
@@ -716,6 +720,28 @@ func (g *gen) c12ziplist(max int, pairs bool, scores bool) []c12ZlEntry {
 		}
 	}
 	return es
+}
+
+// c12bigZiplist: entry counts around the point where the 16-bit count field saturates (65535 = "walk the entries")
+func (g *gen) c12bigZiplist() string {
+	n := []int{65534, 65535, 65536, 65537, 65535 + g.r.Intn(9000), 131072}[g.r.Intn(6)]
+	t := []int{10, 13, 12}[g.r.Intn(3)]
+	if t != 10 && n%2 == 1 {
+		n++
+	}
+	es := make([]c12ZlEntry, n)
+	for i := range es {
+		switch {
+		case t == 12 && i%2 == 1:
+			es[i] = c12ZlEntry{head: "i4", v: int64(g.r.Intn(13))} // score
+		case g.r.Intn(3) == 0:
+			es[i] = c12ZlEntry{head: "s6", s: []byte{byte('a' + g.r.Intn(26)), byte(g.r.Intn(256))}}
+		default:
+			es[i] = c12ZlEntry{head: "i4", v: int64(g.r.Intn(13))}
+		}
+	}
+	blob := serZiplist12(es)
+	return fmt.Sprintf("cmp %d %s %s", t, genWrap12(g.r, blob, false), c12EntriesText(es))
 }
 
 func (g *gen) c12cmp() string {
@@ -1066,8 +1092,8 @@ var handDec12 = []string{
 	// LZF: short stream leaves zeros; encoded flags of clen/ulen ignored
 	"00" + "c3" + "03" + "08" + "02616263",
 	"00" + "c3" + "c3" + "08" + "02616263",
-	"00" + "c3" + "03" + "00" + "02616263", // output beyond the buffer: panic
-	"00" + "c3" + "02" + "08" + "20ff",     // back reference before the start: panic
+	"00" + "c3" + "03" + "00" + "02616263",           // output beyond the buffer: panic
+	"00" + "c3" + "02" + "08" + "20ff",               // back reference before the start: panic
 	"00" + "c3" + "04" + "09" + "0061" + "e001" + "", // truncated long reference: panic
 	"00" + "c3" + "05" + "0a" + "0061" + "e00100",
 	// quicklist: errors of nodes are dropped
@@ -1172,6 +1198,10 @@ func genC12(g *gen) {
 	n = g.pick(1800, 80000)
 	for i := 0; i < n; i++ {
 		g.emit("%s", g.c12cmp())
+	}
+	// ziplists whose 16-bit count field saturates
+	for i, nb := 0, g.pick(4, 24); i < nb; i++ {
+		g.emit("%s", g.c12bigZiplist())
 	}
 	// every ziplist header with every boundary value, in one list each
 	for _, h := range []struct {
